@@ -242,6 +242,8 @@ class IntDSSpec(Spec):
     def __init__(self, method):
         self.qualname = f"IntDisjointSet.{method}"
         self.method = method
+        # find / connected / value_count keep the ghost witnesses (path compression preserves rep and dist)
+        self.ghost_modifies = ["rep", "dist"] if method in ("add", "union", "union_left") else []
         if method in ("union", "union_left", "connected"):
             self.calls = {"self": None}
             self.calls = {}
